@@ -135,6 +135,12 @@ def cases(draw):
         Qp = None
     else:
         P = Qp = None
+    # representatives related through z: (X, Y, Z) and (X, +-Y, -Z) share raw coordinate words although they are P / -P or P / P
+    zrel = draw(st.sampled_from(("indep", "indep", "indep", "neg_z", "same_z")))
+    if zrel == "neg_z":
+        zQ = K.neg(zP)
+    elif zrel == "same_z" and rel != "same":
+        zQ = zP
     junkP = (draw(fe(g)), draw(fe(g)))
     junkQ = (draw(fe(g)), draw(fe(g)))
     api = draw(st.sampled_from(("c", "cpp")))
